@@ -397,6 +397,7 @@ def run_shard(spec, res):
     if spec['what'] == 'sched':
         return run_sched(spec, res)
     if spec['what'] == 'stores':
+        run_failing_consumers(res)
         return run_stores(spec, res)
     ld = import_lazy_dataset()
     if spec['what'] == 'exh':
@@ -533,6 +534,83 @@ def run_stores(spec, res):
                                   {'calls_per_example': dict(calls)},
                                   sig={'last_op': 'diskcache', 'stores': True,
                                        'two_handles': second})
+
+
+def run_failing_consumers(res):
+    """Eager operations that fail (a sort whose keys cannot be compared, a
+    key / group / predicate function that raises for one example): the error
+    reaches the caller and every user function has been applied at most once
+    per example - a failure is no reason to evaluate anything again."""
+    import collections
+    ld = import_lazy_dataset()
+
+    class Boom(TypeError):
+        pass
+    for n in (3, 6):
+        for raises in (TypeError, ValueError, Boom, KeyError, NotImplementedError):
+            ops = {
+                'sort-incomparable-keys': lambda d, k: d.sort(k['mixed']),
+                'sort-key-raises': lambda d, k: d.sort(k['raising']),
+                'sort-reverse-key-raises': lambda d, k: d.sort(k['raising'], reverse=True),
+                'groupby-raises': lambda d, k: d.groupby(k['raising']),
+                'groupby-unhashable': lambda d, k: d.groupby(k['unhashable']),
+                'eager-filter-raises': lambda d, k: d.filter(k['raising'], lazy=False),
+                'eager-cache-raises': lambda d, k: d.map(k['raising']).cache(lazy=False),
+                'new-of-raising': lambda d, k: ld.new(d.map(k['raising'])),
+                # no failure at all: keyed iteration is refused late (at the
+                # part without keys) and the copy is made from a plain pass
+                'new-of-keyed-plus-keyless': lambda d, k: ld.new(
+                    d.concatenate(ld.new([100, 200]))),
+                'eager-cache-of-keyed-interspersed-with-keyless': lambda d, k:
+                    d.intersperse(ld.new([100, 200])).cache(lazy=False),
+            }
+            for on, op in ops.items():
+                for backing in ('dict', 'list'):
+                    calls = collections.Counter()
+
+                    def up(x, calls=calls):
+                        calls['map', x] += 1
+                        return x
+
+                    def mixed(x, calls=calls):
+                        calls['key', x] += 1
+                        return None if x == 1 else x
+
+                    def raising(x, calls=calls, raises=raises, n=n):
+                        calls['key', x] += 1
+                        if x == n - 2:
+                            raise raises(x)
+                        return x
+
+                    def unhashable(x, calls=calls):
+                        calls['key', x] += 1
+                        return [x] if x == 1 else x
+                    case = {'failing_consumer': on, 'n': n, 'raises': raises.__name__,
+                            'source': backing}
+                    res.case(('failing', on, n, raises.__name__, backing), True)
+                    src = ld.new({f'k{i}': i for i in range(n)} if backing == 'dict'
+                                 else list(range(n)))
+                    failed = False
+                    try:
+                        out = op(src.map(up), {'mixed': mixed, 'raising': raising,
+                                               'unhashable': unhashable})
+                        if on.startswith(('eager-cache', 'new-of')):
+                            list(out)
+                    except BaseException:
+                        failed = True
+                    res.count('failing_eager_operations_checked')
+                    if failed:
+                        res.count('failing_eager_operations_that_raised')
+                    twice = {str(k): c for k, c in calls.items() if c > 1}
+                    if twice:
+                        only_failing = all(k[1] == n - 2 and c == 2
+                                           for k, c in calls.items() if c > 1)
+                        res.violation('function-applied-twice', case,
+                                      {'applications': twice, 'operation_raised': failed},
+                                      sig={'last_op': ('from_dataset' if on.startswith(
+                                          ('eager-cache', 'new-of')) else on.split('-')[0]),
+                                           'failing': True, 'raises': raises.__name__,
+                                           'only_the_failing_example': only_failing})
 
 
 def finalize(res, tier):
